@@ -2,6 +2,7 @@ package kv
 
 import (
 	"fmt"
+	"go/token"
 	"go/types"
 	"sort"
 	"strings"
@@ -115,6 +116,10 @@ func (a *Act) modTarget0(callee *ssa.Function, e Expr) *modTargetInfo {
 				info.pred = func(env *Env, r Term) Term {
 					m := env.value(env.eval(ix.X))
 					return eq(r, m.T)
+				}
+				info.exact = func(env *Env) []Term {
+					m := env.value(env.eval(ix.X))
+					return []Term{m.T, m.T}
 				}
 				return info
 			}
@@ -264,6 +269,19 @@ func (a *Act) fnEnv(fn *ssa.Function, params []Val, free []Val, cur, old *State,
 					return SVal{T: v.T, Typ: p.Type(), Sort: a.u.D.SortOf(p.Type()), Fn: v.Fn}, true
 				}
 			}
+			if a.top != nil && a.top.fc != nil && fn == a.top.fn {
+				for _, g := range a.top.fc.Ghosts {
+					if g.Name == name {
+						srt, et := ghostSort(g.Sort)
+						return SVal{T: st.heap("G_"+g.Name, srt), Sort: srt, Elem: et, Typ: func() types.Type {
+							if strings.HasPrefix(srt, "(Array") {
+								return nil
+							}
+							return et
+						}()}, true
+					}
+				}
+			}
 			for i, fv := range fn.FreeVars {
 				if i >= len(free) {
 					break
@@ -349,6 +367,36 @@ func (a *Act) loopEnv0(li *loopInfo, st *State, mode string, from *ssa.BasicBloc
 			}
 			return SVal{T: t, Typ: phi.Type(), Sort: d.SortOf(phi.Type())}, true
 		}
+		if strings.HasPrefix(name, "$i") && len(name) > 2 {
+			n := 0
+			fmt.Sscanf(name[2:], "%d", &n)
+			for _, l2 := range a.loops {
+				if l2.ord != n {
+					continue
+				}
+				for _, ins := range l2.head.Instrs {
+					if phi, ok := ins.(*ssa.Phi); ok && phi.Comment == "rangeindex" {
+						if v, ok := a.vals[phi]; ok {
+							return SVal{T: app("+", v.T, "1"), Typ: phi.Type(), Sort: "Int"}, true
+						}
+					}
+				}
+			}
+		}
+		if name == "$range" {
+			// the slice a range-over-slice loop iterates over
+			for _, ins := range li.head.Instrs {
+				if bo, ok := ins.(*ssa.BinOp); ok && bo.Op == token.LSS {
+					if c, ok := bo.Y.(*ssa.Call); ok {
+						if b, ok := c.Call.Value.(*ssa.Builtin); ok && b.Name() == "len" {
+							if v, ok := a.vals[c.Call.Args[0]]; ok && v.Loc == nil {
+								return SVal{T: v.T, Typ: c.Call.Args[0].Type(), Sort: d.SortOf(c.Call.Args[0].Type())}, true
+							}
+						}
+					}
+				}
+			}
+		}
 		if name == "$seen" || name == "$pos" {
 			for _, b := range a.fn.Blocks {
 				if !li.blocks[b] {
@@ -363,6 +411,11 @@ func (a *Act) loopEnv0(li *loopInfo, st *State, mode string, from *ssa.BasicBloc
 				}
 			}
 		}
+		if mode == "back" && from != nil {
+			if v, ok := a.lookupVarFrom(st, from, name, true); ok {
+				return v, true
+			}
+		}
 		if v, ok := a.lookupVar(st, li.head, name); ok {
 			return v, true
 		}
@@ -373,6 +426,10 @@ func (a *Act) loopEnv0(li *loopInfo, st *State, mode string, from *ssa.BasicBloc
 
 // lookupVar resolves a source variable name at block b: allocs by name, then the dominating debug refs / phis.
 func (a *Act) lookupVar(st *State, b *ssa.BasicBlock, name string) (SVal, bool) {
+	return a.lookupVarFrom(st, b, name, false)
+}
+
+func (a *Act) lookupVarFrom(st *State, b *ssa.BasicBlock, name string, includeSelf bool) (SVal, bool) {
 	d := a.u.D
 	// named allocs
 	for _, blk := range a.fn.Blocks {
@@ -405,7 +462,7 @@ func (a *Act) lookupVar(st *State, b *ssa.BasicBlock, name string) (SVal, bool) 
 		for i := len(blk.Instrs) - 1; i >= 0; i-- {
 			switch x := blk.Instrs[i].(type) {
 			case *ssa.DebugRef:
-				if blk == b {
+				if blk == b && !includeSelf {
 					continue // instructions of the loop head itself run after the invariant point
 				}
 				if x.IsAddr {
@@ -421,7 +478,7 @@ func (a *Act) lookupVar(st *State, b *ssa.BasicBlock, name string) (SVal, bool) 
 					}
 				}
 			case *ssa.Phi:
-				if blk != b && x.Comment == name {
+				if (blk != b || includeSelf) && x.Comment == name {
 					if v, ok := a.vals[x]; ok {
 						return SVal{T: v.T, Typ: x.Type(), Sort: d.SortOf(x.Type())}, true
 					}
@@ -499,9 +556,16 @@ func (a *Act) callByContract(st *State, callee *ssa.Function, fc *FuncContract, 
 	}
 	qenv := a.fnEnv(callee, args, env, st, pre, rvals)
 	a.bindPure(qenv, callee, fc, args)
+	ghostNames := map[string]bool{}
+	for _, g := range fc.Ghosts {
+		ghostNames[g.Name] = true
+	}
 	for _, cl := range fc.Clauses {
 		if cl.Kind != "ensures" {
 			continue
+		}
+		if len(ghostNames) > 0 && mentions(cl.Expr, ghostNames) {
+			continue // postconditions over the callee's ghost variables are not visible to callers
 		}
 		st.assume(a.evalClause(qenv, cl))
 	}
@@ -642,6 +706,33 @@ func (e *Engine) VerifyFunc(fn *ssa.Function, fc *FuncContract, smoke bool) (res
 		}
 		u.Fact(app("distinct", ts...))
 	}
+	// ghost variables
+	for _, g := range fc.Ghosts {
+		srt, _ := ghostSort(g.Sort)
+		genv := a.fnEnv(fn, a.params, a.free, st, st, nil)
+		var t Term
+		if err := catch(func() {
+			v := genv.value(genv.eval(g.Init))
+			t = v.T
+			if v.Sort == "Int" && srt == "Real" {
+				t = toReal(t)
+			}
+		}); err != nil {
+			u.Errors = append(u.Errors, fmt.Sprintf("%s: ghost %s: %v", u.Name, g.Name, err))
+			continue
+		}
+		if srt == "Ref" && t == "0" {
+			t = "nil"
+		}
+		if strings.HasPrefix(srt, "(Array") && (t == "0" || t == "0.0") {
+			z := "0"
+			if strings.HasSuffix(srt, "Real)") {
+				z = "0.0"
+			}
+			t = fmt.Sprintf("((as const %s) %s)", srt, z)
+		}
+		st.setHeap("G_"+g.Name, srt, t)
+	}
 	a.entry = st.clone()
 	u.entryEnv = func() *Env { return a.fnEnv(fn, a.params, a.free, a.entry, a.entry, nil) }
 	env := a.fnEnv(fn, a.params, a.free, st, a.entry, nil)
@@ -720,7 +811,7 @@ func (a *Act) frameObligations(out *State, fc *FuncContract) {
 	sort.Strings(names)
 	for _, n := range names {
 		srt := u.heapSort[n]
-		if _, isTrace := traceSorts[n]; isTrace {
+		if _, isTrace := traceSorts[n]; isTrace || strings.HasPrefix(n, "G_") {
 			continue // ghost state
 		}
 		init := u.heapInit(n, srt)
@@ -734,6 +825,25 @@ func (a *Act) frameObligations(out *State, fc *FuncContract) {
 		goal := fmt.Sprintf("(forall ((r Ref)) (=> %s (= (select %s r) (select %s r))))", and(cs...), out.heaps[n], init)
 		u.Oblige("frame", n, u.E.Pos(a.fn.Pos()), "only the modifies targets of heap "+n+" change", out.guard, goal, nil)
 	}
+}
+
+func ghostSort(s string) (string, types.Type) {
+	switch s {
+	case "int":
+		return "Int", tInt
+	case "real":
+		return "Real", nil
+	case "bool":
+		return "Bool", tBool
+	case "ref":
+		return "Ref", nil
+	case "[]int":
+		return "(Array Int Int)", tInt
+	case "[]real":
+		return "(Array Int Real)", nil
+	}
+	fail("unknown ghost sort %s", s)
+	return "", nil
 }
 
 func (u *Unit) loadAxioms() {
